@@ -635,10 +635,14 @@ PROPS["C02"] = {
                      "our own counters message_seq / epoch stay below 65535 (preconditions)"],
     "kani": [],
     "verus": [
-        V("identity gate: keys and Connected only after the expected certificate (Verus)", "dtls_identity_gate", "quick", "proof",
+        V("identity gate, client role and role-independent handlers (Verus)", "dtls_identity_gate", "quick", "proof",
           ["DtlsInner::handle_certificate", "DtlsInner::handle_server_key_exchange", "DtlsInner::handle_server_hello_done (up to the key derivation)",
            "DtlsInner::handle_client_key_exchange", "DtlsInner::handle_finished"],
-          "inv(ctx, is_client): certificate on record has the expected fingerprint; server_key_exchange_verified => certificate on record and key possession proved for the expected fingerprint; session_keys is Some => identity established; client: session_keys is Some => server_key_exchange_verified. Each handler requires and ensures inv (role-split clauses); identity_ok (client: and possession_proved) asserted before both DtlsState::Connected constructions",
-          min_verified=5),
+          "inv(ctx, is_client): certificate on record has the expected fingerprint; server_key_exchange_verified => certificate on record and key possession proved for the expected fingerprint; session_keys is Some => identity established; client: session_keys is Some => server_key_exchange_verified. handle_certificate, handle_server_key_exchange and handle_finished preserve inv in both roles; handle_server_hello_done and handle_client_key_exchange preserve it in the client role; identity_ok (client: and possession_proved) is asserted before both DtlsState::Connected constructions",
+          min_verified=7),
+        V("identity gate, server role: keys only after the client's certificate (Verus)", "dtls_identity_gate_server", "quick", "proof",
+          ["DtlsInner::handle_client_key_exchange", "DtlsInner::handle_server_hello_done (up to the key derivation)"],
+          "the same invariant for is_client == false in the two handlers where a server obtains session keys: `!is_client ==> inv(final)`",
+          min_verified=4),
     ],
 }
